@@ -1,6 +1,7 @@
 import SignaloModel.Proofs.BridgePipes
 import SignaloModel.Model.Pipes
 import SignaloModel.Model.PipesSink
+import SignaloModel.Proofs.PipeStep
 /-!
 # C01 — Pipes compose stages as sequential function application
 
@@ -9,6 +10,9 @@ The property theorems for C01: `#check` prints each statement, `#print axioms` i
 -/
 open SignaloModel
 
+#check @Pipes.filter_eq_thread
+#check @Pipes.source_eq_thread
+#check @Pipes.sink_eq_thread
 #check @PipeRegistry.stage_run_eq
 #check @PipeRegistry.stage_run_leafOut
 #check @Pipes.run_eq_seq
@@ -18,6 +22,9 @@ open SignaloModel
 #check @Pipes.runOpt_none_iff
 #check @Pipes.finalize_eq
 
+#print axioms Pipes.filter_eq_thread
+#print axioms Pipes.source_eq_thread
+#print axioms Pipes.sink_eq_thread
 #print axioms PipeRegistry.stage_run_eq
 #print axioms PipeRegistry.stage_run_leafOut
 #print axioms Pipes.run_eq_seq
